@@ -108,6 +108,44 @@ def extract():
     only_here = len(ccons) == 1 and "write_request(&msg)" in fn_body(cli, "call_with_body_and_timeout") and \
         "write_request(&msg)" in fn_body(cli, "notify_with_builder")
     f["clientChecksFirst"] = bool(c) and c.start() < s.start() and only_here
+    # ---- where the limit comes from
+    limraw = test_mod_cut(strip(read("src/websocket_limits.rs")))
+    def const(name):
+        m = re.search(r"pub const " + name + r"\s*:\s*usize\s*=\s*(\d+)\s*<<\s*(\d+)\s*;", limraw)
+        if not m: raise ExtractError(f"const {name}")
+        return int(m.group(1)) << int(m.group(2))
+    f["defaultFrame"], f["defaultMessage"] = const("DEFAULT_MAX_FRAME_SIZE"), const("DEFAULT_MAX_MESSAGE_SIZE")
+    flat = lambda t: " ".join(t.split())
+    dflt = flat(fn_body(impl_block(limraw, r"impl Default for WebSocketLimits\s*\{"), "default"))
+    f["defaultIsDefaults"] = dflt == ("Self { max_incoming_frame_size: Some(DEFAULT_MAX_FRAME_SIZE), max_incoming_message_size: "
+                                      "Some(DEFAULT_MAX_MESSAGE_SIZE), assumed_peer_frame_limit: Some(DEFAULT_MAX_FRAME_SIZE), }")
+    wl = impl_block(limraw, r"impl WebSocketLimits\s*\{")
+    f["unlimitedIsNone"] = flat(fn_body(wl, "unlimited")) == "Self { max_incoming_frame_size: None, max_incoming_message_size: None, assumed_peer_frame_limit: None, }"
+    f["settersSetOwnField"] = all(flat(fn_body(wl, "with_" + n)) == f"self.{n} = bytes; self"
+                                  for n in ("max_incoming_frame_size", "max_incoming_message_size", "assumed_peer_frame_limit"))
+    f["guardReadsAssumed"] = bool(re.search(r"match self\.assumed_peer_frame_limit\s*\{", fn_body(wl, "check_outbound")))
+    conv = flat(fn_body(limraw, "from"))
+    f["transportGetsIncomingOnly"] = conv == "Self { max_frame_size: limits.max_incoming_frame_size, max_message_size: limits.max_incoming_message_size, ..Self::default() }"
+    wss = impl_block(srv, r"impl WebSocketServer\s*\{")
+    shared = impl_block(srv, r"impl SharedWebSocketServer\s*\{")
+    hc = fn_body(srv, "handle_connection_with_config")
+    f["serverThreadsLimits"] = (
+        "limits: crate::WebSocketLimits::default()," in flat(fn_body(wss, "new"))
+        and flat(fn_body(wss, "with_limits")) == "self.limits = limits; self"
+        and "limits: self.limits," in flat(fn_body(wss, "into_shared"))
+        and bool(re.search(r"writer_task\(\s*ws_writer,\s*outbound_rx,\s*shutdown_rx,\s*config\.limits,", hc))
+        and flat(fn_body(shared, "limits")) == "self.config.limits"
+        and "accept_with_limits(stream, path, self.config.limits)" in flat(fn_body(shared, "accept"))
+        and "accept_with_limits(stream, path, crate::WebSocketLimits::default())" in flat(fn_body(wss, "accept")))
+    f["proxyThreadsLimits"] = (
+        flat(fn_body(srv, "proxy_connection")) == "proxy_connection_with_limits(ws_stream, upstream, crate::WebSocketLimits::default()).await"
+        and "frame_outbound(response, &limits, &[])" in flat(fn_body(srv, "proxy_connection_with_limits")))
+    wc = impl_block(cli, r"impl WebSocketClient\s*\{")
+    cw = flat(fn_body(wc, "connect_with_limits"))
+    f["clientThreadsLimits"] = (
+        flat(fn_body(wc, "connect")) == "Self::connect_with_limits(url, crate::WebSocketLimits::default()).await"
+        and bool(re.search(r"WebSocketClientInner \{[^}]*\blimits,", cw))
+        and "self.inner.limits.check_outbound(" in wr)
     return f
 
 
@@ -129,6 +167,17 @@ def render(f):
         f"    writerGuarded := {b(f['writerGuarded'])}",
         f"    clientLenTerms := {ts(f['clientLenTerms'])}",
         f"    clientChecksFirst := {b(f['clientChecksFirst'])} }}",
+        "def configFacts : ConfigFacts :=",
+        f"  {{ defaultFrame := {f['defaultFrame']}",
+        f"    defaultMessage := {f['defaultMessage']}",
+        f"    defaultIsDefaults := {b(f['defaultIsDefaults'])}",
+        f"    unlimitedIsNone := {b(f['unlimitedIsNone'])}",
+        f"    settersSetOwnField := {b(f['settersSetOwnField'])}",
+        f"    guardReadsAssumed := {b(f['guardReadsAssumed'])}",
+        f"    transportGetsIncomingOnly := {b(f['transportGetsIncomingOnly'])}",
+        f"    serverThreadsLimits := {b(f['serverThreadsLimits'])}",
+        f"    proxyThreadsLimits := {b(f['proxyThreadsLimits'])}",
+        f"    clientThreadsLimits := {b(f['clientThreadsLimits'])} }}",
         "end Repe.Gen"]) + "\n"
 
 
